@@ -40,7 +40,7 @@ SetGetOk(r) == /\ r.got_i64 = r.set_i64 /\ r.got_u64 = r.set_u64 /\ r.got_i32 = 
 StepOfImpl(s, r) ==
     [ok |-> CASE r.e = "acc" -> AccOk(r) [] r.e = "inc" -> IncOk(r) [] r.e = "setget" -> SetGetOk(r) [] OTHER -> FALSE, st |-> s]
 TraceLog == ndJsonDeserialize(IOEnv.TRACE)
-T == INSTANCE TraceBase WITH Log <- TraceLog, InitSt <- 0, StepOf <- StepOfImpl
+T == INSTANCE TraceBase WITH Log <- TraceLog, InitSt <- 0, StepOf <- StepOfImpl, ResyncAtNew <- FALSE
 Spec == T!Spec
 Done == T!Done
 ====
